@@ -16,38 +16,6 @@ type Env = Envelope<char>;
 type Key = (usize, usize, char); // (src, dst, msg): orderable stand-in for an envelope
 
 const MAX_OPS: usize = 4;
-/// `Ctx::check` prints only the first 20 failing cases; so that every failure CLASS shows up among them,
-/// at most this many failing cases per class are reported immediately, the others at the end of the run.
-const FIRST_PER_CLASS: u32 = 3;
-
-#[derive(Default)]
-struct Rep {
-    per_class: BTreeMap<String, u32>,
-    deferred: Vec<(String, String, Vec<String>, String, String)>,
-}
-
-impl Rep {
-    fn check(&mut self, ctx: &mut Ctx, case: &str, class: &str, obligations: &[&str], ok: bool, observed: String, required: String) {
-        if ok {
-            ctx.check(case, class, obligations, true, observed, required);
-            return;
-        }
-        let n = self.per_class.entry(class.to_string()).or_insert(0);
-        *n += 1;
-        if *n <= FIRST_PER_CLASS {
-            ctx.check(case, class, obligations, false, observed, required);
-        } else {
-            self.deferred.push((case.to_string(), class.to_string(), obligations.iter().map(|o| o.to_string()).collect(), observed, required));
-        }
-    }
-    fn flush(&mut self, ctx: &mut Ctx) {
-        for (case, class, obl, observed, required) in self.deferred.drain(..) {
-            let o: Vec<&str> = obl.iter().map(|x| x.as_str()).collect();
-            ctx.check(&case, &class, &o, false, observed, required);
-        }
-    }
-}
-
 #[derive(Clone, Copy, PartialEq, Eq, Debug)]
 enum Kind {
     Dup,
@@ -218,7 +186,7 @@ fn kind_name(kind: Kind) -> &'static str {
 }
 
 /// Checks of one reachable (network, model) pair, reached by `ops`.
-fn check_state(rep: &mut Rep, ctx: &mut Ctx, kind: Kind, ops: &[Op], real: &Network<char>, model: &Model) {
+fn check_state(ctx: &mut Ctx, kind: Kind, ops: &[Op], real: &Network<char>, model: &Model) {
     let kn = kind_name(kind);
     let id = format!("{}:{}", kn, show(ops));
     // (1) the view after the last operation is the one the step functions prescribe (whole view)
@@ -237,14 +205,14 @@ fn check_state(rep: &mut Rep, ctx: &mut Ctx, kind: Kind, ops: &[Op], real: &Netw
             None => format!("view-initial-{}", kn),
         };
         let got = view_of(real);
-        rep.check(ctx, &case, &class, last_obl, &got == model, format!("{:?}", got), format!("{:?}", model));
+        ctx.check(&case, &class, last_obl, &got == model, format!("{:?}", got), format!("{:?}", model));
     }
     // (2) len == size of the view
     let want_all = model.all();
     let case = format!("{}|len", id);
     if ctx.want(&case) {
         let got = real.len();
-        rep.check(ctx, &case, &format!("len-{}", kn), &["NET.len.ensures.len", "NET.len.body"], got == want_all.len(), format!("len={}", got), format!("len={}", want_all.len()));
+        ctx.check(&case, &format!("len-{}", kn), &["NET.len.ensures.len", "NET.len.body"], got == want_all.len(), format!("len={}", got), format!("len={}", want_all.len()));
     }
     // (3) iter_all yields the view with multiplicities, and stops (bounded consumption!)
     let case = format!("{}|iter_all", id);
@@ -258,7 +226,7 @@ fn check_state(rep: &mut Rep, ctx: &mut Ctx, kind: Kind, ops: &[Op], real: &Netw
             Kind::NonDup => ("iter-all-nondup-extra-copy", &["NET.iter_next_rest.ensures.rest-nondup", "NET.iter_next.ensures.yield-nondup", "NET.iter_all.ensures.agrees-with-len"]),
             Kind::Dup => ("iter-all-dup-mismatch", &["NET.iter_next.ensures.yield-dup", "NET.iter_next_rest.ensures.rest-dup", "NET.iter_all.ensures.agrees-with-len"]),
         };
-        rep.check(ctx, 
+        ctx.check(
             &case,
             class,
             obl,
@@ -274,7 +242,7 @@ fn check_state(rep: &mut Rep, ctx: &mut Ctx, kind: Kind, ops: &[Op], real: &Netw
         let bound = want.len() + 3;
         let mut got: Vec<Key> = real.iter_deliverable().take(bound).map(|e| key_of(e.src, e.dst, *e.msg)).collect();
         got.sort();
-        rep.check(ctx, 
+        ctx.check(
             &case,
             &format!("iter-deliverable-{}", kn),
             &["NET.deliverable_next.ensures.yield", "NET.deliverable_next.ensures.rest", "NET.iter_deliverable.ensures.enumerates", "NET.iter_deliverable.ensures.one-per-key"],
@@ -293,11 +261,11 @@ fn check_state(rep: &mut Rep, ctx: &mut Ctx, kind: Kind, ops: &[Op], real: &Netw
             Kind::Ordered => Network::new_ordered(envs),
         };
         let got = view_of(&built);
-        rep.check(ctx, &case, &format!("new-{}", kn), &["NET.send.ensures.view"], &got == model && &built == real, format!("{:?}", got), format!("{:?}", model));
+        ctx.check(&case, &format!("new-{}", kn), &["NET.send.ensures.view"], &got == model && &built == real, format!("{:?}", got), format!("{:?}", model));
     }
 }
 
-fn explore(rep: &mut Rep, ctx: &mut Ctx, kind: Kind, universe: &[Key], depth: usize, ops: &mut Vec<Op>) {
+fn explore(ctx: &mut Ctx, kind: Kind, universe: &[Key], depth: usize, ops: &mut Vec<Op>) {
     if ops.len() == depth {
         // replay the whole sequence on a fresh real network and a fresh model
         let mut real = new_real(kind);
@@ -316,7 +284,7 @@ fn explore(rep: &mut Rep, ctx: &mut Ctx, kind: Kind, universe: &[Key], depth: us
                     if ctx.want(&case) {
                         let mut probe = real.clone();
                         let r = catch_unwind(AssertUnwindSafe(|| apply_real(&mut probe, *op)));
-                        rep.check(ctx, 
+                        ctx.check(
                             &case,
                             &format!("consume-absent-{}", kind_name(kind)),
                             &["NET.on_deliver.requires.in-flight", "NET.on_drop.requires.in-flight"],
@@ -332,19 +300,19 @@ fn explore(rep: &mut Rep, ctx: &mut Ctx, kind: Kind, universe: &[Key], depth: us
             if r.is_err() {
                 let case = format!("{}:{}|panic", kind_name(kind), show(&ops[..=i]));
                 if i + 1 == ops.len() && ctx.want(&case) {
-                    rep.check(ctx, &case, &format!("unexpected-panic-{}", kind_name(kind)), &["NET.send.body", "NET.on_deliver.body", "NET.on_drop.body"], false, "panic".to_string(), "no panic: precondition holds".to_string());
+                    ctx.check(&case, &format!("unexpected-panic-{}", kind_name(kind)), &["NET.send.body", "NET.on_deliver.body", "NET.on_drop.body"], false, "panic".to_string(), "no panic: precondition holds".to_string());
                 }
                 return;
             }
             model.apply(*op);
         }
-        check_state(rep, ctx, kind, ops, &real, &model);
+        check_state(ctx, kind, ops, &real, &model);
         return;
     }
     for k in universe {
         for op in [Op::Send(*k), Op::Deliver(*k), Op::Drop(*k)] {
             ops.push(op);
-            explore(rep, ctx, kind, universe, depth, ops);
+            explore(ctx, kind, universe, depth, ops);
             ops.pop();
         }
     }
@@ -353,10 +321,9 @@ fn explore(rep: &mut Rep, ctx: &mut Ctx, kind: Kind, universe: &[Key], depth: us
 pub fn run(ctx: &mut Ctx) {
     // 2 ids, both directed flows between them, 2 message values
     let universe: Vec<Key> = vec![(0, 1, 'a'), (0, 1, 'b'), (1, 0, 'a'), (1, 0, 'b')];
-    let mut rep = Rep::default();
     for kind in [Kind::NonDup, Kind::Ordered, Kind::Dup] {
         for depth in 0..=MAX_OPS {
-            explore(&mut rep, ctx, kind, &universe, depth, &mut Vec::new());
+            explore(ctx, kind, &universe, depth, &mut Vec::new());
         }
     }
     // the reproduction quoted in DESIGN.md / KNOWN_FINDINGS: two initial copies of one envelope
@@ -365,7 +332,6 @@ pub fn run(ctx: &mut Ctx) {
         let e = env((0, 1, 'a'));
         let n = Network::new_unordered_nonduplicating([e, e]);
         let c = n.iter_all().take(10).count();
-        rep.check(ctx, case, "iter-all-nondup-extra-copy", &["NET.iter_next_rest.ensures.rest-nondup", "NET.iter_all.ensures.agrees-with-len"], c == n.len(), format!("len()={} iter_all().count()={}", n.len(), c), "equal".to_string());
+        ctx.check(case, "iter-all-nondup-extra-copy", &["NET.iter_next_rest.ensures.rest-nondup", "NET.iter_all.ensures.agrees-with-len"], c == n.len(), format!("len()={} iter_all().count()={}", n.len(), c), "equal".to_string());
     }
-    rep.flush(ctx);
 }
